@@ -218,7 +218,7 @@ theorem traces_topSchemas (h : Heap) (n : Nat) : ∀ cs, Traces h (topSchemas h 
     have ih := allTrace h n
     have ihl := traces_topSchemas h n cs
     rw [topSchemas]
-    repeat (first | exact ihl | apply traces_bind | exact traces_add _ _ _ | exact traces_clear _ _ | exact ih.schema _ _ | intro _)
+    repeat (first | exact ihl | apply traces_bind | apply traces_ite | exact traces_add _ _ _ | exact traces_clear _ _ | exact ih.schema _ _ | intro _)
 
 theorem traces_topParameters (h : Heap) (n : Nat) : ∀ cs, Traces h (topParameters h n cs)
   | [] => by rw [topParameters]; exact traces_pure _ _
